@@ -327,6 +327,28 @@ def runReorderModel (a : CaseAcc) : List String :=
       let (fs, gave, fuelOut) := reorderModel stdTyInfo asm.funcs a.initSig.isSome
       [s!"m4o order={fmtTys (fs.map (·.id))} gaveup={fmtTys gave} fuel={if fuelOut then "FUEL" else "ok"}"]
 
+/-- the hypotheses of the fixpoint theorems (NjectProps/C15b.lean), evaluated on the model's own state
+    before the final validation -/
+def runDepsCheck (a : CaseAcc) : List String :=
+  let order4 := if hasReorder a && !a.s4.isEmpty then some (a.s4.reverse.map (·.id)) else none
+  let cannot4 := (a.s4.filter (·.gaveUp)).map (·.id)
+  match editAll a.enodes.reverse with
+  | .error _ => []
+  | .ok order =>
+    let provs := order.filterMap fun n => a.pdescs.find? (·.idx == n.idx)
+    match assemble provs a.invSig a.initSig with
+    | none => []
+    | some asm0 =>
+      let funcs? := match order4 with
+        | none => some asm0.funcs
+        | some o => permuteTo asm0.funcs o
+      match funcs? with
+      | none => []
+      | some funcs =>
+        match inclusionBeforeFinal stdTyInfo funcs cannot4 with
+        | .error _ => []
+        | .ok pre => [s!"m5deps sym={if depsSymB pre then "ok" else "bad"} prov={if provOKB pre then "ok" else "bad"}"]
+
 def runBindModel (a : CaseAcc) : List String :=
   let order4 := if hasReorder a && !a.s4.isEmpty then some (a.s4.reverse.map (·.id)) else none
   let cannot4 := (a.s4.filter (·.gaveUp)).map (·.id)
@@ -384,9 +406,9 @@ def runValidators (a : CaseAcc) : List String :=
 
 /-- run all ops through Exec and Spec; returns output lines -/
 def runCase (a : CaseAcc) : List String :=
-  if !a.bindOk then [s!"case {a.n}", runEdit a] ++ runAssemble a ++ runReorderCheck a ++ runReorderModel a ++ runBindModel a ++ ["skip nobind", "end"] else
+  if !a.bindOk then [s!"case {a.n}", runEdit a] ++ runAssemble a ++ runReorderCheck a ++ runReorderModel a ++ runBindModel a ++ runDepsCheck a ++ ["skip nobind", "end"] else
   match mkCompiled a.vcount a.flines.reverse a.dv a.uv with
-  | none => [s!"case {a.n}", runEdit a] ++ runAssemble a ++ runReorderCheck a ++ runReorderModel a ++ runBindModel a ++ ["skip nodump", "end"]
+  | none => [s!"case {a.n}", runEdit a] ++ runAssemble a ++ runReorderCheck a ++ runReorderModel a ++ runBindModel a ++ runDepsCheck a ++ ["skip nodump", "end"]
   | some c =>
     let b := mkBeh a.scripts
     let wf := match checkWF c with
@@ -408,7 +430,7 @@ def runCase (a : CaseAcc) : List String :=
       (ls ++ evs.map ("s " ++ ·) ++ [s!"s ret {fmtVals res}"], s')) ([], c.specBindState)
     let (fl, fnode) := (buildProg c.run c.fin).flatten
     let prog := if fl.map (·.id) == c.run.map (·.id) && fnode.id == c.fin.id then "prog ok" else "prog fail"
-    [s!"case {a.n}", runEdit a] ++ runAssemble a ++ runReorderCheck a ++ runReorderModel a ++ runBindModel a ++ runValidators a ++ [wf, sup, prog] ++ xl ++ sl ++ ["end"]
+    [s!"case {a.n}", runEdit a] ++ runAssemble a ++ runReorderCheck a ++ runReorderModel a ++ runBindModel a ++ runDepsCheck a ++ runValidators a ++ [wf, sup, prog] ++ xl ++ sl ++ ["end"]
 
 
 /-! ### C20 helper records -/
